@@ -1361,9 +1361,29 @@ impl fmt::Display for Expr {
                 )
             }
             Expr::UnaryOp { op, expr } => {
+                // Two adjacent symbolic operators need a blank between them, otherwise they
+                // read as another token: `- -x` as the comment `--x`, `@ @x` as `@@x`,
+                // `x! !` as `x!!`.
+                let operand_is_symbolic_prefix = matches!(
+                    expr.as_ref(),
+                    Expr::UnaryOp { op: inner, .. }
+                        if *inner != UnaryOperator::PGPostfixFactorial
+                            && *inner != UnaryOperator::Not
+                );
+                let operand_is_postfix = matches!(
+                    expr.as_ref(),
+                    Expr::UnaryOp {
+                        op: UnaryOperator::PGPostfixFactorial,
+                        ..
+                    }
+                );
                 if op == &UnaryOperator::PGPostfixFactorial {
-                    write!(f, "{expr}{op}")
-                } else if op == &UnaryOperator::Not {
+                    if operand_is_postfix {
+                        write!(f, "{expr} {op}")
+                    } else {
+                        write!(f, "{expr}{op}")
+                    }
+                } else if op == &UnaryOperator::Not || operand_is_symbolic_prefix {
                     write!(f, "{op} {expr}")
                 } else {
                     write!(f, "{op}{expr}")
